@@ -300,49 +300,70 @@ def _corr_ctl(ctx, out):
 # --------------------------------------------------------------------------
 # spec-level differential
 # --------------------------------------------------------------------------
-def _spec_calc(ctx, out, rng, n_hist):
-    """REAL Calculator vs the independent fresh evaluation (plain python) at the vector it reports"""
+def _calc_check(graph, x0, ops, trace=False):
+    """REAL Calculator (optionally in trace mode) on one history vs the independent from-scratch
+    evaluation at the vector it reports. -> (failure dict or None, n_returning, n_raising)"""
     from . import c07_calc as cc
 
-    for c in _calc_cases(rng, n_hist, 30, malformed=False):
-        init, steps, calc = cc.run_real(c["graph"], c["x0"], c["ops"])
-        out["evaluations"] += 1
-        if init == "raises":
-            continue
-        req = list(c["x0"])
-        for i, s in enumerate(steps):
-            op = c["ops"][i]
-            want = cc.fresh_python(c["graph"], s["last"])
-            inp = dict(kind="calculator", graph=c["graph"], x0=c["x0"], ops=c["ops"][: i + 1])
-            if s["reported"] != s["last"]:
-                add_failure(out, "spec", "get_value_array() differs from last_values", inp, s["last"], s["reported"],
-                            sig="calc:reported-vs-last")
-                break
-            if want is None or want != s["cur"]:
-                add_failure(out, "spec", "Calculator buffer is not a fresh evaluation at the vector it reports",
-                            inp, want, s["cur"], sig="calc:stale-buffer:" + ("fail" if s["raised"] else "ok"))
-                break
-            if not s["raised"]:
-                if s["ret"] != want[-1]:
-                    add_failure(out, "spec", "Calculator return value is not the fresh value", inp, want[-1], s["ret"],
-                                sig="calc:stale-return")
-                    break
-                if op[0] == "call" and s["last"] != list(op[1]):
-                    add_failure(out, "spec", "after a successful call the calculator is not at the requested vector",
-                                inp, list(op[1]), s["last"], sig="calc:not-at-request")
-                    break
-                if op[0] == "call" and cc.fresh_python(c["graph"], list(op[1])) is None:
-                    add_failure(out, "spec", "call succeeded where a fresh evaluation raises", inp, None, s["ret"],
-                                sig="calc:missed-raise")
-                    break
-            else:
-                if op[0] == "call" and cc.fresh_python(c["graph"], list(op[1])) is not None:
-                    add_failure(out, "spec", "call raised where a fresh evaluation succeeds", inp, "value", s["exc"],
-                                sig="calc:spurious-raise")
-                    break
-            bump(out, "spec_calc_step", "raises" if s["raised"] else "returns")
+    t = ":trace" if trace else ""
+    init, steps, calc = cc.run_real(graph, x0, ops, trace=trace)
+    if init == "raises":
+        return None, 0, 0
+    nret = nraise = 0
+
+    def fail(what, sig, i, expected, got):
+        return dict(what=what + (" (trace mode)" if trace else ""), sig=sig + t, expected=expected, got=got,
+                    input=dict(kind="calculator", graph=graph, x0=x0, ops=ops[: i + 1], trace=trace))
+
+    for i, s in enumerate(steps):
+        op = ops[i]
+        want = cc.fresh_python(graph, s["last"])
+        if s["raised"] and str(s["exc"]).startswith("ESCAPED:"):
+            return fail("the calculator let an exception out that is neither ParameterOutOfBoundsError nor "
+                        "ArithmeticError, and is left at a vector / buffer that is not a fresh evaluation",
+                        "calc:escaped:" + s["exc"].split(":")[1], i, dict(fresh_at_reported=want),
+                        dict(exc=s["exc"], reported=s["last"], buffer=s["cur"])), nret, nraise
+        if s["reported"] != s["last"]:
+            return fail("get_value_array() differs from last_values", "calc:reported-vs-last", i, s["last"],
+                        s["reported"]), nret, nraise
+        if want is None or want != s["cur"]:
+            return fail("Calculator buffer is not a fresh evaluation at the vector it reports",
+                        "calc:stale-buffer:" + ("fail" if s["raised"] else "ok"), i, want, s["cur"]), nret, nraise
+        if not s["raised"]:
+            if s["ret"] != want[-1]:
+                return fail("Calculator return value is not the fresh value", "calc:stale-return", i, want[-1],
+                            s["ret"]), nret, nraise
+            if op[0] == "call" and s["last"] != list(op[1]):
+                return fail("after a successful call the calculator is not at the requested vector",
+                            "calc:not-at-request", i, list(op[1]), s["last"]), nret, nraise
+            if op[0] == "call" and cc.fresh_python(graph, list(op[1])) is None:
+                return fail("call succeeded where a fresh evaluation raises", "calc:missed-raise", i, None,
+                            s["ret"]), nret, nraise
+            nret += 1
         else:
-            out["nontrivial"].add(("spec-calc", json.dumps(c["ops"][:3])))
+            if op[0] == "call" and cc.fresh_python(graph, list(op[1])) is not None:
+                return fail("call raised where a fresh evaluation succeeds", "calc:spurious-raise", i, "value",
+                            s["exc"]), nret, nraise
+            nraise += 1
+    return None, nret, nraise
+
+
+def _spec_calc(ctx, out, rng, n_hist):
+    """REAL Calculator vs the independent fresh evaluation (plain python) at the vector it reports;
+    every fifth history runs the calculator in trace mode (Calculator(trace=True), what
+    make_calculator(trace=True) / COGENT3_TRACE give), which must behave identically"""
+    for ci, c in enumerate(_calc_cases(rng, n_hist, 30, malformed=False)):
+        trace = ci % 5 == 4
+        f, nret, nraise = _calc_check(c["graph"], c["x0"], c["ops"], trace=trace)
+        out["evaluations"] += 1
+        key = "spec_calc_step_trace" if trace else "spec_calc_step"
+        out["dist"].setdefault(key, {})
+        out["dist"][key]["returns"] = out["dist"][key].get("returns", 0) + nret
+        out["dist"][key]["raises"] = out["dist"][key].get("raises", 0) + nraise
+        if f:
+            add_failure(out, "spec", f["what"], f["input"], f["expected"], f["got"], sig=f["sig"])
+        else:
+            out["nontrivial"].add(("spec-calc", trace, json.dumps(c["ops"][:3])))
 
 
 def _lf_case(case, out, sample=False):
@@ -693,6 +714,8 @@ def match_finding(f, k):
         # the defect needs a second scope dimension: at least two loci or at least two bins
         if not (len(inp.get("loci") or []) >= 2 or int(inp.get("bins") or 0) >= 2):
             return False
+    if r.get("needs_trace") and not inp.get("trace"):
+        return False
     if r.get("needs_exception_exit"):
         # the failing step must be (lf) the block an exception left, or (toy controller) come after such an exit
         ops = inp.get("ops") or []
@@ -711,13 +734,10 @@ def _replay_input(inp):
     from . import c07_calc as cc
 
     if inp.get("kind") == "calculator":
-        init, steps, _ = cc.run_real(inp["graph"], inp["x0"], inp["ops"])
-        if init == "raises":
-            return False
-        s = steps[-1]
-        want = cc.fresh_python(inp["graph"], s["last"])
-        print("reported vector", s["last"], "buffer", s["cur"], "fresh", want)
-        return want != s["cur"] or s["reported"] != s["last"]
+        f, _, _ = _calc_check(inp["graph"], inp["x0"], inp["ops"], trace=bool(inp.get("trace")))
+        if f:
+            print(f["sig"], "expected", f["expected"], "got", f["got"])
+        return bool(f)
     if inp.get("kind") == "rules":
         f = _rules_real_roundtrip(inp["model"], inp["par"], inp["taxa"], inp["ops"])
         if f:
@@ -773,4 +793,9 @@ def check_witness(ctx, w):
         for f in fails:
             add_failure(out, "spec", f["what"], f["input"], f["expected"], f["got"], sig=f["sig"])
         return out["failures"][0] if out["failures"] else None
+    if w.get("kind") == "calculator":
+        f, _, _ = _calc_check(w["graph"], w["x0"], w["ops"], trace=bool(w.get("trace")))
+        if f:
+            add_failure(out, "spec", f["what"], f["input"], f["expected"], f["got"], sig=f["sig"])
+            return out["failures"][0]
     return None
